@@ -25,6 +25,18 @@ SAFE_REDIRECT_TARGETS = frozenset({"/dev/null", "-", "/dev/stdout", "/dev/stdin"
 _ASSIGNMENT_RE = re.compile(r"[A-Za-z_][A-Za-z0-9_]*(\[[^\]]*\])?\+?=")
 
 
+# A redirection operator may carry a file-descriptor prefix: 2>, 3>>, {fd}>
+_FD_PREFIX_RE = re.compile(r"^(\d+|\{[A-Za-z_][A-Za-z0-9_]*\})")
+
+# Operators (fd prefix removed) that open their target for writing
+_WRITE_REDIRECT_OPS = frozenset({">", ">>", ">|", "&>", "&>>", "<>", ">&"})
+
+
+def _is_write_redirect(op: str) -> bool:
+    """True if the operator opens its target file for writing (N>, {v}>>, >|, <>, >&file ...)."""
+    return _FD_PREFIX_RE.sub("", op) in _WRITE_REDIRECT_OPS
+
+
 def _is_assignment_word(word) -> bool:
     """True if bash treats this (raw, unstripped) word as a variable assignment."""
     raw = word if isinstance(word, str) else getattr(word, "value", "")
@@ -388,7 +400,7 @@ def _analyze_redirects(
             continue
 
         # Check output redirects against config
-        if op in (">", ">>", "&>", "&>>", "2>", "2>>"):
+        if _is_write_redirect(op):
             redirect_match = match_redirect(target, config, cwd)
             if redirect_match:
                 if redirect_match.decision == "allow":
